@@ -23,7 +23,7 @@ from pv.harness import Cov, digest, viol
 from pv.models.health_ref import HealthShadow
 
 HOST, PEER = "N", "peer"
-SW = {"db": ("service", "database-service"), "web": ("service", "web-server"), "cli": ("application", "database-client"),
+SW = {"db": ("service", "database-service"), "web": ("service", "web-server"), "cli": ("application", "web-browser"),
       "bot": ("application", "dos-bot")}
 FILES = {"a": ("d", "a.txt"), "b": ("d", "b.txt"), "dbf": ("database", "database.db")}
 FOLDERS = {"d": "d", "dbd": "database"}
@@ -45,7 +45,7 @@ EXTRA = [
 ]
 FULL = CORE + EXTRA
 TIMING = [("folder_scan", "d"), ("folder_restore", "d"), ("os_scan", None), ("sw_fix", "db"), ("sw_compromise", "db"),
-          ("tick", None), ("file_corrupt", "a"), ("file_delete", "a"), ("sw_scan", "db"), ("svc_pause", "db")]
+          ("tick", None), ("file_delete", "a"), ("shutdown", None)]
 TIMED_MECHS = ("fix", "folder-scan", "folder-restore", "node-scan")
 
 _am = None
@@ -70,8 +70,7 @@ def scenario(d_on, d_off, backup=True):
            applications=[{"type": "database-client", "options": {"db_server_ip": "192.168.1.20"}}])
     dbopt = {"backup_server_ip": "192.168.1.10"} if backup else {}
     n.host(HOST, "192.168.1.20", kind="server", start_up_duration=d_on, shut_down_duration=d_off,
-           services=[{"type": "database-service", "options": dbopt}, {"type": "web-server"}],
-           applications=[{"type": "database-client", "options": {"db_server_ip": "192.168.1.20"}}])
+           services=[{"type": "database-service", "options": dbopt}, {"type": "web-server"}])
     n.to_switch("sw1", PEER)
     n.to_switch("sw1", HOST)
     return n.scenario()
@@ -161,11 +160,26 @@ def install_taps():
     fsk = lambda m, f: m.fs_key(f)  # noqa: E731
 
     # ---- scans
+    def live_files(m, folder):
+        return {("file", folder.sys_log.hostname, folder.name, f.name) for f in folder.files.values() if not f.deleted}
+
+    def node_scan_activity(m, nt):
+        """first scan call made directly by Node.apply_timestep: the node scan is completing; what it has to cover is
+        what exists at this moment (later in the same tick a database restore may create files)"""
+        nt.info["activity"] += 1
+        if nt.info["activity"] == 1:
+            node = m.nodes[nt.key[1]]
+            req = {("sw", nt.key[1], n) for n in node.software_manager.software}
+            for fo in node.file_system.folders.values():
+                req |= live_files(m, fo)
+            nt.info["required"] = req
+            nt.info["apps"] = {s.name for s in node.applications.values()}
+
     def sw_scan_pre(m, r, sw, a, k):
         m.cov.inc("software_scan_calls")
         nt = m.sh.find("Node.tick")
         if m.sh.in_tick and nt is not None and nt.key[1] == r.key[1]:
-            nt.info["activity"] += 1
+            node_scan_activity(m, nt)
             nt.info["scanned"].add(r.key)
 
     def sw_scan_post(m, r, sw, res, a, k):
@@ -188,9 +202,6 @@ def install_taps():
 
     region(File, "scan", "File.scan", fsk, None, file_scan_pre, file_scan_post)
 
-    def live_files(m, folder):
-        return {("file", folder.sys_log.hostname, folder.name, f.name) for f in folder.files.values() if not f.deleted}
-
     def scan_tick_pre(m, r, folder, a, k):
         r.info["live"] = live_files(m, folder)
 
@@ -209,7 +220,7 @@ def install_taps():
         r.info.update(instant=inst, vwrites=0, scanned=set(), live=live_files(m, folder))
         nt = m.sh.find("Node.tick")
         if inst and m.sh.in_tick and nt is not None and nt.key[1] == r.key[1]:
-            nt.info["activity"] += 1
+            node_scan_activity(m, nt)
             nt.info["folders"].add(r.key)
 
     def scan_call_post(m, r, folder, res, a, k):
@@ -231,16 +242,12 @@ def install_taps():
         if not r.info["activity"]:
             return
         host = r.key[1]
-        sw_all = {("sw", host, n) for n in node.software_manager.software}
-        missed = sorted(sw_all - r.info["scanned"])
-        if missed:
-            apps = {s.name for s in node.applications.values()}
-            kinds = sorted({"application" if k[2] in apps else "service" for k in missed})
-            m.v(f"node-scan-completion-skips/{'+'.join(kinds)}", f"node scan of {host} completed without scanning {missed}")
-        files = set()
-        for fo in node.file_system.folders.values():
-            files |= live_files(m, fo)
-        fmiss = sorted(files - r.info["scanned"])
+        missed = sorted(r.info["required"] - r.info["scanned"])
+        sw_missed = [k for k in missed if k[0] == "sw"]
+        if sw_missed:
+            kinds = sorted({"application" if k[2] in r.info["apps"] else "service" for k in sw_missed})
+            m.v(f"node-scan-completion-skips/{'+'.join(kinds)}", f"node scan of {host} completed without scanning {sw_missed}")
+        fmiss = [k for k in missed if k[0] == "file"]
         if fmiss:
             m.v("node-scan-completion-skips/file", f"node scan of {host} completed without scanning files {fmiss}")
         m.cov.inc("node_scan_coverage_checks")
@@ -676,7 +683,7 @@ def calibrate(mech, d, cov, out):
 
 
 # ------------------------------------------------------------------------------------------------ check
-DUR_EXH = [((2, 2, 2, 2), (0, 0)), ((1, 1, 1, 1), (1, 1))]
+DUR_EXH = [((2, 1, 2, 1), (1, 0)), ((1, 2, 1, 2), (0, 1)), ((3, 3, 3, 3), (0, 0)), ((0, 0, 0, 0), (1, 1))]
 
 
 class Check:
@@ -684,7 +691,7 @@ class Check:
     level = "exploration"
     rule = ("case = (fixing, folder-scan, folder-restore, node-scan durations) x (node start-up, shut-down durations) x word of "
             "operations on host N of a 3-node network (peer with database client + FTP backup server; N with database "
-            "service, web server, database client, folder d with two files): software compromise / scan / fix, service "
+            "service, web server, web browser, folder d with two files): software compromise / scan / fix, service "
             "stop / start / pause / resume, file corrupt / scan / repair / restore / delete / fs-level restore, folder corrupt / "
             "scan / repair / restore / delete / fs-level restore, node OS scan, shutdown, startup, tick, SQL DELETE / ENCRYPT and "
             "connections from the peer, application install / remove. Words: every word of length 3 over a 27-op core "
@@ -708,7 +715,7 @@ class Check:
     def cases(self, tier, seed):
         specs = []
         quick = tier == "quick"
-        for ci, (durs, power) in enumerate(DUR_EXH if quick else DUR_EXH + [((3, 1, 2, 3), (0, 1)), ((0, 0, 0, 0), (1, 0))]):
+        for ci, (durs, power) in enumerate(DUR_EXH[:1] if quick else DUR_EXH):
             for first in range(len(CORE)):
                 specs.append({"name": f"exh3-c{ci}-{first}", "kind": "exh", "alpha": "CORE", "depth": 3, "first": first,
                               "durs": list(durs), "power": list(power)})
